@@ -258,8 +258,10 @@ class Oracle:
         return [h for h in self.holds if h[0] is vt and h[1] == inode]
 
     def others_in_machinery(self, vt, inode):
+        """Another thread OF THE SAME PROCESS is inside lock.py for this path (the internal
+        locks a non-blocking request may find busy live in one module instance = process)."""
         for other, frames in self.inflight.items():
-            if other is vt or not frames:
+            if other is vt or other.pid != vt.pid or not frames:
                 continue
             for fr in frames:
                 if fr['inode'] == inode and fr['phase'] in ('acq', 'rel'):
@@ -281,7 +283,9 @@ class Oracle:
         if fr['contended']:
             return
         if self.conflicting_holds(vt, fr['inode'], fr['req']['shared']) or \
-                self.others_in_machinery(vt, fr['inode']):
+                self.others_in_machinery(vt, fr['inode']) or \
+                self.os._conflicts(fr['inode'], vt.pid, 'S' if fr['req']['shared'] else 'X'):
+            # (the last one: another PROCESS holds or is converting a conflicting record lock)
             fr['contended'] = True
 
     def on_enter(self, vt, fr, fd):
@@ -359,8 +363,13 @@ class Oracle:
                                f'{vt.name}: RecursiveDeadlockError for {fmt_req(req)} '
                                f'(held_before={fr["held_before"]})')
         elif outcome == 'oserror':
-            produced = any(e[2] == exc.errno for e in self.os.produced_errors)
             missing = req['path'] >= len(FILES) and isinstance(exc, FileNotFoundError)
+            produced = False
+            for pe in ([] if missing else self.os.produced_errors):
+                if pe[1] == vt.pid and pe[2] == exc.errno:
+                    self.os.produced_errors.remove(pe)      # one produced error excuses one refusal
+                    produced = True
+                    break
             if not (produced or missing):
                 self.violation('unexpected-oserror', f'{vt.name}: {exc!r} not produced by the kernel')
         elif outcome == 'error':
@@ -466,8 +475,15 @@ class Oracle:
                     if vt in justified:
                         continue
                     shared = fr['req']['shared']
-                    # (a) a conflicting holder exists in the reference model
-                    ok = bool(self.conflicting_holds(vt, fr['inode'], shared))
+                    # (a) a conflicting holder exists in the reference model - in the domain
+                    # the waiter is parked in: a condition variable is signalled by threads of
+                    # the same process only, lockf waits for other processes only
+                    conf = self.conflicting_holds(vt, fr['inode'], shared)
+                    if vt.blocked_kind == 'cond':
+                        conf = [c for c in conf if c[0].pid == vt.pid]
+                    elif vt.blocked_kind == 'lockf':
+                        conf = [c for c in conf if c[0].pid != vt.pid]
+                    ok = bool(conf)
                     if not ok and vt.blocked_kind == 'lock':
                         # (b) queued behind a justified requester that owns the internal
                         # lock this one needs (e.g. a writer waiting in lockf)
